@@ -21,7 +21,14 @@ RULE = ("a case = (graph spec, format configuration). Graph specs: one determini
         "mixed-case names, empty blocks, root or named top, leaf top). Sessions: 4-8 export/parse calls in one process over a "
         "family of related graphs (the same graph again, the same UUIDs with other names, partial graphs in which some elements "
         "are replaced by stub references to their UUIDs), binary and text interleaved; after every call the result is compared "
-        "with the same call made in a pristine (forked) interpreter and every tree built or returned earlier is re-dumped. Non-trivial = graph has more than one element "
+        "with the same call made in a pristine (forked) interpreter and every tree built or returned earlier is re-dumped. "
+        "Argument forms: each graph is also built through the other forms the API accepts today (arrays from list/tuple/"
+        "generator/iterator via Attribute.array or item assignment, raw values vs classmethod-built Attribute objects vs "
+        "mutable Vec/Angle/Matrix twins, bytes vs bytearray, name via constructor/property/item, uuid positional/keyword) and "
+        "exported/parsed through other call forms (keyword/positional, BytesIO, pre-filled BytesIO, real file object, the same "
+        "buffer parsed twice): same bytes/graph as the canonical form, inputs unchanged; plus hand-built aliasing scenarios "
+        "(same element twice in an array, self reference, one Attribute in two elements, one list in two attributes, twins "
+        "mutated later, aliased bytearray, name removed / coerced). Non-trivial = graph has more than one element "
         "or a non-string attribute; distinct by (spec, configuration) content.")
 TRUSTED = ["model: C14.encodeBin / C14.decodeBin / C14.encodeType / C14.decodeType / string table / fromKv1 / toKv1 "
            "(lean/Srctools/Model/C14.lean) and the KV2 emitter/reader (Model/C14Kv2.lean); tables regenerated from dmx.py by "
@@ -771,6 +778,225 @@ def run_sessions(ctx, n_sessions):
         ctx.witness(key, f'session of {len(small)} export/parse calls in one process: {text}', {'session': small})
 
 
+# ----------------------------------------------------------------------------- argument forms and aliasing
+
+def _export_form(root, cfg, form):
+    """export with one of the accepted call forms; returns the bytes written by this export."""
+    import tempfile, os
+    kw = dict(version=cfg['v'], unicode=cfg['mode']) if cfg['fmt'] == 'binary' else \
+        dict(flat=cfg['flat'], cull_uuid=cfg['cull'], unicode=cfg['mode'])
+    fn = root.export_binary if cfg['fmt'] == 'binary' else root.export_kv2
+    if form == 'bytesio-kw':
+        b = io.BytesIO(); r = fn(b, **kw); data = b.getvalue()
+    elif form == 'positional':
+        b = io.BytesIO()
+        r = root.export_binary(b, cfg['v'], 'dmx', 1, cfg['mode']) if cfg['fmt'] == 'binary' else \
+            root.export_kv2(b, 'dmx', 1, flat=cfg['flat'], cull_uuid=cfg['cull'], unicode=cfg['mode'])
+        data = b.getvalue()
+    elif form == 'defaults':
+        b = io.BytesIO(); r = fn(b, fmt_name='dmx', fmt_ver=1, **kw); data = b.getvalue()
+    elif form == 'prefixed':      # a file that already holds data: the export is appended at the current position
+        b = io.BytesIO(); b.write(b'PREFIX'); r = fn(b, **kw); data = b.getvalue()
+        if not data.startswith(b'PREFIX'):
+            return b'<prefix overwritten>' + data
+        data = data[6:]
+    else:                         # 'realfile'
+        fd, path = tempfile.mkstemp(prefix='c14_')
+        try:
+            with os.fdopen(fd, 'wb') as f:
+                r = fn(f, **kw)
+            with open(path, 'rb') as f:
+                data = f.read()
+        finally:
+            os.unlink(path)
+    if r is not None:
+        return b'<export returned a value>' + data
+    return data
+
+
+def _parse_form(data, mode, form):
+    """parse with one of the accepted call forms; returns (canonical graph, note)."""
+    import tempfile, os
+    Element = _impl()
+    uni = mode == 'silent'
+    if form == 'bytesio-kw':
+        f = io.BytesIO(data); p = Element.parse(f, unicode=uni)
+        return G.canon(p[0]), None if (not f.closed and f.getvalue() == data) else 'buffer closed or changed by parse'
+    if form == 'positional':
+        return G.canon(Element.parse(io.BytesIO(data), uni)[0]), None
+    if form == 'twice':           # the same buffer parsed a second time after seek(0)
+        f = io.BytesIO(data); a = G.canon(Element.parse(f, unicode=uni)[0]); f.seek(0)
+        b = G.canon(Element.parse(f, unicode=uni)[0])
+        return b, None if G.approx_equal(a, b, tol=0) is None else 'second parse of the same buffer differs'
+    fd, path = tempfile.mkstemp(prefix='c14_')
+    try:
+        with os.fdopen(fd, 'wb') as f:
+            f.write(data)
+        with open(path, 'rb') as f:
+            p = Element.parse(f, unicode=uni)
+            closed = f.closed
+        return G.canon(p[0]), None if not closed else 'file closed by parse'
+    finally:
+        os.unlink(path)
+
+
+EXPORT_FORMS = ['bytesio-kw', 'positional', 'defaults', 'prefixed', 'realfile']
+PARSE_FORMS = ['bytesio-kw', 'positional', 'twice', 'realfile']
+
+
+def forms_case(spec, seed, cfg, log=lambda k: None):
+    """One graph built canonically and through other accepted argument forms (chosen from `seed`), exported and
+    parsed through other accepted call forms: every form must give the canonical result, no input may be
+    changed. Returns None or (key, text)."""
+    import random
+    rng = random.Random(seed)
+    a = G.build(spec)[0]
+    els, check = G.build_forms(spec, rng, log)
+    b = els[0]
+    ca = G.canon(a)
+    if G.canon(b) != ca:
+        return ('forms:graph-differs', 'built through other argument forms: ' + str(G.approx_equal(ca, G.canon(b), tol=0)))
+    if expected_export_error(spec, cfg['fmt'], cfg.get('v', 0), cfg['mode']):
+        return None
+    ref = _export_form(a, cfg, 'bytesio-kw')
+    ef = rng.choice(EXPORT_FORMS)
+    log('export-form:' + ef)
+    snap = G.canon(b)
+    out = _export_form(b, cfg, ef)
+    again = _export_form(b, cfg, 'bytesio-kw')
+    if out != ref or again != ref:
+        return ('forms:export-differs', f'export form {ef} of the graph built through other argument forms: bytes differ from the canonical export')
+    if G.canon(b) != snap:
+        return ('forms:export-mutates', f'export ({ef}) changed the element graph it wrote')
+    c = check()
+    if c:
+        return ('forms:argument-mutated', c)
+    if cfg['fmt'] == 'kv2' and cfg['cull']:
+        return None      # fresh UUIDs per parse: covered by the round-trip cases
+    want, _ = _parse_form(ref, cfg['mode'], 'bytesio-kw')
+    pf = rng.choice(PARSE_FORMS)
+    log('parse-form:' + pf)
+    got, note = _parse_form(out, cfg['mode'], pf)
+    if note:
+        return ('forms:parse-side-effect', f'parse form {pf}: {note}')
+    d = G.approx_equal(want, got, tol=0)
+    if d:
+        return ('forms:parse-differs', f'parse form {pf}: {d}')
+    return None
+
+
+def _alias_scenarios():
+    """Hand-written aliasing / unusual-state graphs (as the code accepts them today). Each returns the root."""
+    import uuid
+    from srctools.dmx import Element, Attribute, ValueType, StubElement, NULL
+    from srctools.math import Vec, Angle, Matrix
+    U = lambda k: uuid.UUID(int=0xC140000 + k)
+
+    def same_elem_twice():
+        r = Element('r', 'T', U(1)); c = Element('c', 'T', U(2))
+        r['arr'] = Attribute.array('arr', ValueType.ELEMENT, [c, c, r, NULL, c])
+        r['self'] = r
+        c['back'] = Attribute.array('back', ValueType.ELEMENT, [r, c])
+        return r
+
+    def attr_in_two_elems():
+        r = Element('r', 'T', U(1)); c = Element('c', 'T', U(2)); r['kid'] = c
+        a = Attribute.array('shared', ValueType.INT, [1, 2])
+        r['shared'] = a; c['shared'] = a
+        a.append(3)                      # edit through the shared object: both elements hold the current value
+        assert list(r['shared'].iter_int()) == list(c['shared'].iter_int()) == [1, 2, 3]
+        return r
+
+    def list_in_two_attrs():
+        r = Element('r', 'T', U(1))
+        l = [1, 2, 3]
+        r['p'] = Attribute.int('p', l); r['q'] = Attribute.int('q', l)      # as coded: both attributes hold THE list
+        r['p'].append(4)
+        assert list(r['q'].iter_int()) == [1, 2, 3, 4]
+        m = [5, 6]
+        r['u'] = m; r['v'] = m; m.append(7)                                   # item assignment copies
+        assert list(r['u'].iter_int()) == list(r['v'].iter_int()) == [5, 6]
+        return r
+
+    def twins_mutated_later():
+        r = Element('r', 'T', U(1))
+        v, a, m = Vec(1, 2, 3), Angle(10, 20, 30), Matrix.from_yaw(90)
+        r['v'] = v; r['a'] = a; r['m'] = m; r['vs'] = [v, v.freeze()]
+        v.x = 99; a.yaw = 5; m[0, 0] = 7.0
+        assert r['v'].val_vec3.x == 1 and r['a'].val_ang.yaw == 20
+        return r
+
+    def bytearray_alias():
+        r = Element('r', 'T', U(1))
+        ba = bytearray(b'abc')
+        r['b'] = Attribute.binary('b', ba)
+        ba[0] = 0x7a                     # as coded the attribute holds the caller's buffer: export shows the current bytes
+        return r
+
+    def name_removed():
+        r = Element('r', 'T', U(1)); c = Element('c', 'T', U(2)); r['kid'] = c; r['i'] = 1
+        del c['name']; del r['name']
+        return r
+
+    def name_coerced():
+        r = Element('r', 'T', U(1)); c = Element('c', 'T', U(2)); r['kid'] = c
+        r['name'] = 5; c['name'] = Attribute.float('name', 2.5)
+        c.name = 7                       # the property coerces to str
+        return r
+
+    return [same_elem_twice, attr_in_two_elems, list_in_two_attrs, twins_mutated_later, bytearray_alias,
+            name_removed, name_coerced]
+
+
+def scenario_case(name):
+    """Export -> parse of a hand-built aliasing scenario under several configurations. None or (key, text)."""
+    Element = _impl()
+    fn = {f.__name__: f for f in _alias_scenarios()}[name]
+    for cfg in ({'fmt': 'binary', 'v': 5, 'mode': 'ascii'}, {'fmt': 'binary', 'v': 2, 'mode': 'ascii'},
+                {'fmt': 'kv2', 'mode': 'ascii', 'flat': False, 'cull': False},
+                {'fmt': 'kv2', 'mode': 'ascii', 'flat': True, 'cull': False}):
+        try:
+            root = fn()
+            before = G.canon(root)
+            data = _export_form(root, cfg, 'bytesio-kw')
+            if _export_form(root, cfg, 'bytesio-kw') != data:
+                return ('alias:' + name, f'{cfg}: two exports of the same object differ')
+            if G.canon(root) != before:
+                return ('alias:' + name, f'{cfg}: export changed the graph')
+            parsed = Element.parse(io.BytesIO(data))[0]
+            d = G.approx_equal(before, G.canon(parsed))
+        except Exception as e:
+            return ('alias:' + name, f'{cfg}: {type(e).__name__}: {e}'[:300])
+        if d:
+            return ('alias:' + name, f'{cfg}: export then parse gives a different graph: {d}')
+    return None
+
+
+def run_forms(ctx, n):
+    rng = ctx.rng
+    cfgs = [{'fmt': 'binary', 'v': v, 'mode': m} for v in (1, 3, 5) for m in ('ascii', 'format')] + \
+           [{'fmt': 'kv2', 'mode': 'format', 'flat': f, 'cull': c} for f in (False, True) for c in (False, True)]
+    seen = set()
+    for i in range(n):
+        spec = G.all_types_spec('x') if i == 0 else G.gen_spec(rng, PROFILES[i % 3])
+        seed = rng.randrange(1 << 30)
+        cfg = rng.choice(cfgs)
+        ctx.count('forms-case')
+        try:
+            j = forms_case(spec, seed, cfg, ctx.count)
+        except Exception as e:
+            j = ('forms:' + type(e).__name__, f'{type(e).__name__}: {e}'[:300])
+        if j and j[0] not in seen:
+            seen.add(j[0])
+            ctx.witness(j[0], f'{cfg}: {j[1]}', {'forms_spec': spec, 'forms_seed': seed, 'cfg': cfg})
+    for f in _alias_scenarios():
+        ctx.count('alias-scenario')
+        j = scenario_case(f.__name__)
+        if j:
+            ctx.witness(j[0], j[1], {'scenario': f.__name__})
+    ctx.extra['rejected_forms'] = G.REJECTED_FORMS
+
+
 # ----------------------------------------------------------------------------- search
 
 def _shrink(spec, cfg, key):
@@ -825,6 +1051,8 @@ def search(ctx):
         small = _shrink(spec, cfg, key)
         j2 = judge(small, cfg, roundtrip(small, cfg)) or (key, what)
         ctx.witness(key, f'{cfg}: {j2[1]}', {'spec': small, 'cfg': cfg})
+    # other accepted argument / call forms and aliasing
+    run_forms(ctx, ctx.budget(150, 1500))
     # sessions: several export/parse calls in one process over related graphs
     run_sessions(ctx, ctx.budget(60, 600))
     # KV1 bridge directly on the implementation, also through a DMX file
@@ -847,6 +1075,14 @@ def search(ctx):
 
 def replay(ctx, payload):
     inp = payload.get('input') or {}
+    if 'forms_spec' in inp:
+        j = forms_case(inp['forms_spec'], inp['forms_seed'], inp['cfg'])
+        print('argument forms case', inp['cfg'], '->', j or 'same result as the canonical forms')
+        return j is None
+    if 'scenario' in inp:
+        j = scenario_case(inp['scenario'])
+        print('aliasing scenario', inp['scenario'], '->', j or 'round trip ok')
+        return j is None
     if 'session' in inp:
         f = check_session(inp['session'], None)
         print(f'session of {len(inp["session"])} calls ->', f or 'every call ok, earlier trees unchanged')
